@@ -244,7 +244,7 @@ func runCheck(prop, tier, only string, budgetOverride time.Duration) int {
 	defer os.RemoveAll(scratch)
 	buildS := time.Since(t0).Seconds()
 
-	budget := 75 * time.Second
+	budget := 150 * time.Second
 	if tier == "thorough" {
 		budget = 20 * time.Minute
 	}
